@@ -6,10 +6,13 @@ import (
 	"fmt"
 	"os"
 
+	"verif/c13"
 	"verif/core"
 	_ "verif/props"
 	"verif/sess"
 )
+
+func init() { core.Register(c13.Prop{}) }
 
 func main() {
 	core.Main(func() {
